@@ -11,14 +11,20 @@
    op 30..34 Simple rank1 rank0 select1 select0 get;
    op 40..44 FewZero rank1 rank0 select1 select0 get; 45 FewOne rank0, 46 FewOne select0;
    op 50..55 count_ones of SE512, SE256, Simple, FewZero, FewOne, interleaved-256 (argument ignored);
-   op 56..59 interleaved-256 rank1_hardware_accelerated, rank1_adaptive, rank1_optimized, rank1_bulk(&[p])[0].
+   op 56..59 interleaved-256 rank1_hardware_accelerated, rank1_adaptive, rank1_optimized, rank1_bulk(&[p])[0];
+   op 60..65 AdaptiveRankSelect rank1 rank0 select1 select0 get count_ones;
+   op 70..74 RankSelectMixedIL256 with this string as dimension 0 and a second dimension of `olen` bits: rank1 rank0
+             select1 get count_ones of dim0; 75..79 the same with this string as dimension 1;
+   op 80..85 RankSelectAllZero(len) rank1 rank0 select1 select0 get count_ones; 86..91 RankSelectAllOne(len);
+   op 92..95 MultiDimRankSelect<2> over [this string; its negation]: bulk_rank_multidim([p, p])[0] and [1],
+             bulk_select_multidim([k, 0])[0] and ([0, k])[1] (-1 when the call fails).
    Definitions only. *)
 From Coq Require Import List Arith NArith ZArith Bool.
 From ZV.Common Require Import Run.
-From ZV.C04 Require Import Spec Model ModelIL ModelGen ModelILSel ModelSE256 ModelSimple ModelFew2 ModelBV.
+From ZV.C04 Require Import Spec Model ModelIL ModelGen ModelILSel ModelSE256 ModelSimple ModelFew2 ModelBV ModelTrivial ModelMixed.
 Import ListNotations.
 
-Definition run_queries2 (bs : list bool) (sp0 sp1 : bool) (rate : N) (qs : list (N * N)) : list Z :=
+Definition run_queries2 (bs : list bool) (sp0 sp1 : bool) (rate olen : N) (qs : list (N * N)) : list Z :=
   let s := build bs sp0 sp1 in
   let f := few_build bs in
   let il := il_build bs in
@@ -27,6 +33,13 @@ Definition run_queries2 (bs : list bool) (sp0 sp1 : bool) (rate : N) (qs : list 
   let s2 := se256_build bs sp0 sp1 in
   let sm := simple_build bs in
   let fz := fz_build bs in
+  let ad := adaptive_build bs in
+  let mx := mx_build bs (N.to_nat olen) in
+  let sz := length bs in
+  let md := md_build [bs; map negb bs] in
+  let md_rank := fun (i p : nat) => match md with Some m => Z.of_nat (nth i (md_bulk_rank m [p; p]) O) | None => (-1)%Z end in
+  let md_sel := fun (i : nat) (ks : list nat) =>
+    match md with Some m => obs (option_map (fun l => nth i l O) (md_bulk_select m ks)) | None => (-1)%Z end in
   map (fun '(op, a) =>
     let n := N.to_nat a in
     match op with
@@ -76,19 +89,51 @@ Definition run_queries2 (bs : list bool) (sp0 sp1 : bool) (rate : N) (qs : list 
     | 57 => Z.of_nat (il_rank1 il n)
     | 58 => Z.of_nat (il_rank1 il n)
     | 59 => Z.of_nat (il_rank1 il n)
+    | 60 => Z.of_nat (adaptive_rank1 ad n)
+    | 61 => Z.of_nat (adaptive_rank0 ad n)
+    | 62 => obs (adaptive_select1 ad n)
+    | 63 => obs (adaptive_select0 ad n)
+    | 64 => obsb (adaptive_get ad n)
+    | 65 => Z.of_nat (adaptive_count_ones ad)
+    | 70 => obs (mx_rank1 mx n)
+    | 71 => obs (mx_rank0 mx n)
+    | 72 => obs (mx_select1 mx n)
+    | 73 => obsb (mx_get mx n)
+    | 74 => Z.of_nat (mx_max_rank1 mx)
+    | 75 => obs (mx_rank1 mx n)
+    | 76 => obs (mx_rank0 mx n)
+    | 77 => obs (mx_select1 mx n)
+    | 78 => obsb (mx_get mx n)
+    | 79 => Z.of_nat (mx_max_rank1 mx)
+    | 80 => obs (az_rank1 sz n)
+    | 81 => obs (az_rank0 sz n)
+    | 82 => obs (az_select1 sz n)
+    | 83 => obs (az_select0 sz n)
+    | 84 => obsb (az_get sz n)
+    | 85 => Z.of_nat (az_count_ones sz)
+    | 86 => obs (ao_rank1 sz n)
+    | 87 => obs (ao_rank0 sz n)
+    | 88 => obs (ao_select1 sz n)
+    | 89 => obs (ao_select0 sz n)
+    | 90 => obsb (ao_get sz n)
+    | 91 => Z.of_nat (ao_count_ones sz)
+    | 92 => md_rank O n
+    | 93 => md_rank (S O) n
+    | 94 => md_sel O [n; O]
+    | 95 => md_sel (S O) [O; n]
     | _ => (-9)%Z
     end%N) qs.
 
 (* one generated case: either a bit string with queries, or a BitVector history
    (start: new or with_size(n, v); ops (opcode, index, bit); expected observations, final blocks(), final len()) *)
 Inductive c04case :=
-  | RS (runs : list (bool * N)) (sp0 sp1 : bool) (rate : N) (qs : list (N * N)) (expect : list Z)
+  | RS (runs : list (bool * N)) (sp0 sp1 : bool) (rate olen : N) (qs : list (N * N)) (expect : list Z)
   | BV (init_size : N) (init_val use_init : bool) (ops : list (N * N * N))
        (expect : list Z) (expect_blocks : list N) (expect_len : N).
 
 Definition case_ok (c : c04case) : bool :=
   match c with
-  | RS runs sp0 sp1 rate qs expect => eqb_lz (run_queries2 (expand runs) sp0 sp1 rate qs) expect
+  | RS runs sp0 sp1 rate olen qs expect => eqb_lz (run_queries2 (expand runs) sp0 sp1 rate olen qs) expect
   | BV n v u ops expect eb el =>
       let '(o, bl, ln) := bv_run_case n v u ops in
       eqb_lz o expect && eqb_ln bl eb && N.eqb ln el
